@@ -24,6 +24,7 @@ def cmd(tool="shell", ins=(), outs=(), tag="", reads=(), failif="", failpt="befo
     c["_depfmt"] = depstyle          # the format the body actually writes (normally the declared style)
     c["_failhow"] = "exit 1"         # how a failing body dies: "exit N" or "kill -SIG $$"
     c["_relreads"] = False           # dependency file names the read paths relative to the working directory
+    c["_wd"] = ""                    # working-directory attribute (sandbox-relative directory), "" = not set
     return c
 
 def sigx_of(name, c, idx):
@@ -33,7 +34,7 @@ def sigx_of(name, c, idx):
     if c["_signature"]:
         return dict(explicit=c["_signature"])
     # the argument vector is an injective function of these fields
-    return dict(tag=c["tag"], reads=c["reads"], failif=c["failif"], failpt=c["failpt"], failhow=c["_failhow"], depsok=c["depsok"], idx=idx, keep=c["keep"], rel=c.get("_relreads", False),
+    return dict(tag=c["tag"], reads=c["reads"], failif=c["failif"], failpt=c["failpt"], failhow=c["_failhow"], depsok=c["depsok"], idx=idx, keep=c["keep"], rel=c.get("_relreads", False), wd=c.get("_wd", ""),
                 extra=c["_extra"], env=c["_env"], depstyle=c["_depstyle"] if c["reads"] else "", depfmt=c["_depfmt"] if c["reads"] else "",
                 inherit=c["_inherit_env"])
 
@@ -68,7 +69,10 @@ def deps_bytes(c, nodes, abs_prefix):
     paths = []
     for r in c["reads"]:
         n = r  # node name: absolute names start with @/
-        if c.get("_relreads") and c["_depfmt"] == "makefile" and n.startswith(SBX + "/"): paths.append(n[len(SBX) + 1:])    # (only the Makefile style resolves relative names)
+        if c.get("_relreads") and n.startswith(SBX + "/"):
+            rel = n[len(SBX) + 1:]
+            if c.get("_wd") and rel.startswith(c["_wd"] + "/"): rel = rel[len(c["_wd"]) + 1:]      # node names of such commands are @/<wd>/../<path>
+            paths.append(rel)
         else: paths.append(n.replace(SBX, abs_prefix) if n.startswith(SBX) else n)
     if c["_depfmt"] == "depinfo":
         b = b"\x00verif\x00" + b"".join(b"\x10" + p.encode("latin-1") + b"\x00" for p in paths)
@@ -86,7 +90,7 @@ def body_script(name, c, idx, nodes, abs_prefix):
         p = nodes[n]["path"]
         return shlex.quote(p)
     sx = sigx_of(name, c, idx); sx = {k: v for k, v in sx.items() if k not in ("extra", "env", "inherit", "depstyle")}
-    L = ["V=$(cat .vb)", ": " + shlex.quote(json.dumps(sx, sort_keys=True))]     # the argument vector is an injective function of these fields
+    L = (["cd " + shlex.quote(abs_prefix)] if c.get("_wd") else []) + ["V=$(cat .vb)", ": " + shlex.quote(json.dumps(sx, sort_keys=True))]     # the argument vector is an injective function of these fields
     if c["failif"] and c["failpt"] == "before": L.append("if [ -e %s ]; then %s; fi" % (P(c["failif"]), c["_failhow"]))
     def cat(ns):
         parts = []
@@ -106,7 +110,7 @@ def body_script(name, c, idx, nodes, abs_prefix):
             L.append("{ " + "; ".join(parts) + "; } > " + P(o))
             L += stamp
     if c["reads"]:
-        L.append(sh_printf_bytes(deps_bytes(c, nodes, abs_prefix)) + " > " + shlex.quote(name + ".d"))
+        L.append(sh_printf_bytes(deps_bytes(c, nodes, abs_prefix)) + " > " + shlex.quote((c["_wd"] + "/" if c.get("_wd") else "") + name + ".d"))
     if c["failif"] and c["failpt"] == "after": L.append("if [ -e %s ]; then %s; fi" % (P(c["failif"]), c["_failhow"]))
     L.append("exit 0")
     return "\n".join(L)
@@ -166,6 +170,7 @@ def render(desc, nodes, abs_prefix):
             else: L.append("    args: " + ylist(["/bin/sh", "-c", script] + c["_extra"]))
             if c["_env"]: L.append("    env: {" + ", ".join("%s: %s" % (yq(k), yq(v)) for k, v in c["_env"]) + "}")
             if not c["_inherit_env"]: L.append("    inherit-env: false")
+            if c.get("_wd"): L.append("    working-directory: " + yq(abs_prefix + "/" + c["_wd"]))
             if c["reads"]:
                 L.append("    deps: " + (yq(name + ".d") if sp.get("deps") != "list" else ylist([name + ".d"])))
                 L.append("    deps-style: " + {"makefile": "makefile", "depinfo": "dependency-info"}[c["_depstyle"]])
